@@ -17,11 +17,11 @@ fn get_dependencies_from_type(
                 if seen.insert(id.clone()) {
                     res.push(id.clone());
                     get_dependencies(tp, types, res, seen);
-                    for parameter in parameters {
-                        get_dependencies_from_type(parameter, types, res, seen);
-                    }
                     seen.remove(&id.clone());
                 }
+            }
+            for parameter in parameters {
+                get_dependencies_from_type(parameter, types, res, seen);
             }
         }
         RustType::Simple { id } => {
